@@ -193,7 +193,10 @@ class FutureImplBase : private FutureImplResultMember<Result> {
   void decRefCountMaybeDestroy() {
     DISPENSO_TSAN_ANNOTATE_HAPPENS_BEFORE(&refCount_);
     DISPENSO_VERIF_POINT("FuDecRef", this);
-    if (refCount_.fetch_sub(1, std::memory_order_release) == 1) {
+    // acq_rel: the release half publishes this owner's accesses to the shared state; the acquire
+    // half makes the owner that drops the last reference observe every other owner's accesses
+    // before it destroys the state.
+    if (refCount_.fetch_sub(1, std::memory_order_acq_rel) == 1) {
       DISPENSO_TSAN_ANNOTATE_HAPPENS_AFTER(&refCount_);
       DISPENSO_VERIF_POINT("FuDealloc", this);
       (void)DISPENSO_VERIF_FUTURE(2, this, nullptr);
